@@ -132,6 +132,10 @@ class Check(PropertyCheck):
         # schedule's own (status "feasible")
         for name, secs in ([("la29", 0.4)] if tier == "quick" else [("la29", 0.4), ("ta41", 1.0), ("ft10", 0.3), ("abz7", 0.5)]):
             yield Scenario(["new", "cpnew", f"mark timelimit {name} {secs}"], {"families": "timelimit", "solves": 1})
+        # durations of very different scale (makespan > 10^5): optimality must be exact, not "within a relative gap";
+        # reference = the oracle's own CP-SAT model of the instance, default parameters
+        for k in range(2 if tier == "quick" else 12):
+            yield Scenario(["new", "cpnew", f"mark bigdur {rng.randint(0, 10**6)}"], {"families": "bigdur", "solves": 1})
         if tier == "thorough":
             for name in ["ft06", "la01", "la05", "orb01"][: 4]:
                 yield Scenario(["new", "cpnew", f"mark benchmark {name}"], {"families": "benchmark", "solves": 1})
@@ -173,6 +177,20 @@ class Check(PropertyCheck):
             jobs = [[(list(op.machines), op.duration) for op in job] for job in inst.jobs]
             ctx["timelimit_status"] = sched.metadata.get("status")
             res += self.check_schedule(inst, jobs, sched, brute=False)
+        elif line.startswith("mark bigdur"):
+            import random as _r
+            from impl_ext import _ORToolsSolver
+            r = _r.Random(int(line.split()[2]))
+            J, M = 8, 5
+            jobs = [[([m], r.choice([r.randint(1, 30), r.randint(50000, 100000), r.randint(50000, 100000)]))
+                     for m in r.sample(range(M), M)] for _ in range(J)]
+            inst = build_instance(jobs)
+            sched = _ORToolsSolver().solve(inst)
+            res += self.check_schedule(inst, jobs, sched, brute=False)
+            ref = self.reference_optimum(jobs)
+            if sched.metadata.get("status") == "optimal" and ref is not None and sched.makespan() != ref:
+                res.append(("not-optimal", f"status optimal with makespan {sched.makespan()}, an independent CP-SAT model "
+                            f"of the same instance proves {ref} (instance {jobs})"))
         elif line.startswith("mark benchmark"):
             from job_shop_lib.benchmarking import load_benchmark_instance
             from impl_ext import _ORToolsSolver
@@ -190,6 +208,34 @@ class Check(PropertyCheck):
             if lb is not None and mk < lb:
                 res.append(("benchmark-bound", f"{name}: makespan {mk} below the recorded lower bound {lb}"))
         return res
+
+    @staticmethod
+    def reference_optimum(jobs):
+        """The optimum according to a CP-SAT model written here (not the library's), default solver parameters."""
+        from ortools.sat.python import cp_model
+        m = cp_model.CpModel()
+        H = sum(d for job in jobs for _, d in job)
+        by_m = {}
+        ends = []
+        for j, job in enumerate(jobs):
+            prev = None
+            for p, (ms, d) in enumerate(job):
+                s = m.NewIntVar(0, H, f"s{j}_{p}")
+                e = m.NewIntVar(0, H, f"e{j}_{p}")
+                by_m.setdefault(ms[0], []).append(m.NewIntervalVar(s, d, e, f"i{j}_{p}"))
+                if prev is not None:
+                    m.Add(prev <= s)
+                prev = e
+                ends.append(e)
+        for ivs in by_m.values():
+            m.AddNoOverlap(ivs)
+        mk = m.NewIntVar(0, H, "mk")
+        m.AddMaxEquality(mk, ends)
+        m.Minimize(mk)
+        solver = cp_model.CpSolver()
+        solver.parameters.max_time_in_seconds = 20
+        st = solver.Solve(m)
+        return int(solver.ObjectiveValue()) if st == cp_model.OPTIMAL else None
 
     def check_schedule(self, instance, jobs, sched, brute=True):
         res = []
